@@ -127,9 +127,25 @@ func nodeOpt(pol string) []eventlogger.Option {
 	case "deny":
 		return []eventlogger.Option{eventlogger.WithNodeRegistrationPolicy(eventlogger.DenyOverwrite)}
 	case "invalid":
-		return []eventlogger.Option{eventlogger.WithNodeRegistrationPolicy(invalidPolicy())}
+		return invalidList(eventlogger.WithNodeRegistrationPolicy(invalidPolicy()))
 	}
 	return nil
+}
+
+var invalidListN atomic.Int64
+
+// invalidList spells "an invalid option was given": alone, or among valid options of the other kind / a nil option
+// (one bad option refuses the call, wherever it stands in the list).
+func invalidList(bad eventlogger.Option) []eventlogger.Option {
+	switch invalidListN.Add(1) % 4 {
+	case 1:
+		return []eventlogger.Option{bad, eventlogger.WithNodeRegistrationPolicy(eventlogger.AllowOverwrite), eventlogger.WithPipelineRegistrationPolicy(eventlogger.AllowOverwrite)}
+	case 2:
+		return []eventlogger.Option{eventlogger.WithPipelineRegistrationPolicy(eventlogger.AllowOverwrite), bad, nil, eventlogger.WithNodeRegistrationPolicy(eventlogger.DenyOverwrite)}
+	case 3:
+		return []eventlogger.Option{nil, bad, eventlogger.WithNodeRegistrationPolicy(eventlogger.AllowOverwrite)}
+	}
+	return []eventlogger.Option{bad}
 }
 
 func pipeOpt(pol string) []eventlogger.Option {
@@ -139,7 +155,7 @@ func pipeOpt(pol string) []eventlogger.Option {
 	case "deny":
 		return []eventlogger.Option{eventlogger.WithPipelineRegistrationPolicy(eventlogger.DenyOverwrite)}
 	case "invalid":
-		return []eventlogger.Option{eventlogger.WithPipelineRegistrationPolicy(invalidPolicy())}
+		return invalidList(eventlogger.WithPipelineRegistrationPolicy(invalidPolicy()))
 	}
 	return nil
 }
